@@ -15,13 +15,15 @@ from verif.stubs.pydeque import patched_deque
 
 PROPERTY = "C01"
 B = h.bounds(
-    quick=dict(LEN=2, FLOW=2, NK=16, BUF=2, FREECTX=0),
-    thorough=dict(LEN=3, FLOW=3, NK=16, BUF=3, FREECTX=1),
+    quick=dict(LEN=2, FLOW=2, NK=18, BUF=2, FREECTX=0),
+    thorough=dict(LEN=3, FLOW=3, NK=18, BUF=3, FREECTX=1),
 )
 KINDS = ["callable add3", "Variable x2", "Filter even", "Slice(1,3)", "Slice(2)", "Slice(-1)",
          "Slice(None,None,2)", "Count", "RunIf(positive, add3)", "Reverse", "End", "Sum (fill/compute)",
          "StoreFilled", "Split([add3, add10], bufsize)", "nested Sequence(add3, Slice(2))",
-         "callable with a non-callable run attribute"]
+         "callable with a non-callable run attribute",
+         "RunIf(positive, Slice(-1)) - the only inner element has a run method (reference: the inner "
+         "element run on each selected value alone)", "RunIf(positive, Reverse(), add3)"]
 BOUNDS = dict(vars(B), kinds=KINDS, meaning="element lists of length 0..LEN over `kinds`; flows of "
               "<= FLOW symbolic ints, bare or (data, context); 6 forms: flat, left-nested, "
               "right-nested, every element wrapped, Source with an iterable "
@@ -83,6 +85,14 @@ class _FillNotCallable(object):
 def make(kind, bufsize):
     if kind == 15:
         return _CallableWithRunStub()
+    if kind == 16:
+        el = RunIf(_positive, Slice(-1))
+        el._ref_inner = lambda: [Slice(-1)]
+        return el
+    if kind == 17:
+        el = RunIf(_positive, Reverse(), add3)
+        el._ref_inner = lambda: [Reverse(), add3]
+        return el
     if kind == 0:
         return add3
     if kind == 1:
@@ -116,6 +126,19 @@ def make(kind, bufsize):
 
 def alone(el, ys):
     """One element's own stream transformation, without Sequence/Source/Run."""
+    if hasattr(el, "_ref_inner"):
+        # RunIf, from its documentation: the inner elements are run on each
+        # selected value alone, every other value passes
+        out = []
+        for y in ys:
+            if _positive(y):
+                zs = [y]
+                for inner in el._ref_inner():
+                    zs = alone(inner, zs)
+                out += zs
+            else:
+                out.append(y)
+        return out
     if hasattr(el, "run") and callable(el.run):
         return list(el.run(iter(ys)))
     if callable(el):
@@ -196,7 +219,7 @@ def check_compose(n: int, k0: int, k1: int, k2: int, form: int, bufsize: int,
     return h.ok(got == want)
 
 
-STATELESS = (0, 1, 2, 3, 4, 5, 6, 8, 9, 10, 15)
+STATELESS = (0, 1, 2, 3, 4, 5, 6, 8, 9, 10, 15, 16, 17)
 
 
 def check_reuse(n: int, k0: int, k1: int, form: int, xs: List[int], with_ctx: bool) -> bool:
@@ -367,7 +390,7 @@ def check_flatten(n: int, k0: int, k1: int, k2: int, shape: int) -> bool:
 
 
 CONDITIONS = [
-    dict(fn="check_compose", shards=(48, 96), budget=(160, 1500),
+    dict(fn="check_compose", shards=(54, 108), budget=(160, 1500),
          smoke=["check_compose(2, 1, 7, 0, 0, 1, [1, 2], True)", "check_compose(2, 11, 0, 0, 5, 1, [1, 2], False)",
                 "check_compose(2, 13, 5, 0, 2, 2, [1, 2], True)", "check_compose(0, 0, 0, 0, 4, 1, [4], False)",
                 "check_compose(2, 14, 9, 0, 3, 1, [4, 6], False)"]),
